@@ -10,7 +10,7 @@ INVS = {
     'C06': ['NoBadDeref', 'SnapshotSafe', 'SnapshotNoDup', 'SnapshotScores', 'SnapshotOrder', 'SnapshotCount'],
     'C07': ['Converged'],
     'C12': ['RestartIsolation', 'SnapshotSafe', 'SnapshotNoDup'],
-    'C13': ['NoOtherLostWakeup'],
+    'C13': ['NoLostWakeup'],
     'C19': ['RunningFalseMeansCaughtUp', 'Converged'],
 }
 
@@ -19,7 +19,7 @@ def run(prop, wd, thorough):
     streams = 2 if prop == 'C12' or thorough else 1
     ticks = 3 if (thorough or streams == 1) else 2
     cfg = os.path.join(wd, 'NucleoMC.cfg')
-    edits = 2 if streams == 1 else 1      # two edits reach the rescoring of placeholders left by a cancelled run
+    edits = 2 if (streams == 1 and thorough) else 1      # two edits reach the rescoring of placeholders left by a cancelled run
     open(cfg, 'w').write('SPECIFICATION Spec\nCONSTANTS N = 2\n MaxStreams = %d\n MaxTicks = %d\n MaxEdits = %d\n SortInflight = TRUE\n Pats = {0, 1, 2, 3}\n Appendable = {0, 1, 2, 3}\nINVARIANTS %s\nCHECK_DEADLOCK FALSE\n'
                          % (streams, ticks, edits, ' '.join(INVS[prop])))
     rc, out = tlc('NucleoMC.tla', cfg=cfg, workers=NCPU, timeout=6000, xmx='24g', extra=['-coverage', '1'])
@@ -28,7 +28,7 @@ def run(prop, wd, thorough):
         die_tool('NucleoMC.tla: protocol model violates its invariant or did not finish (oracle defect, not a verdict)\n' + out[-3000:])
     acts = coverage_actions(out)
     never = [a for a, c in acts.items() if a[0].isupper() and c['generated'] == 0 and a not in ('Init',) and not (a == 'Restart' and streams == 1) and not (a == 'RescorePh' and edits == 1)
-             and a not in ('Drop', 'RunEndThenTickLock', 'Next')]
+             and a not in ('Drop', 'RunEndThenAcquire', 'Next')]
     if never:
         die_tool('NucleoMC.tla: actions never taken in the bounded model (vacuity): %s' % never)
     return {'protocol_model_states': st['distinct'], 'protocol_model_transitions': st['generated'], 'protocol_model_depth': st['depth'],
